@@ -145,6 +145,14 @@ def _step(op, study_state, t1, m1, t2, target, a, b, args):
     ok = ok and other == svc.abstract(sql, S2) and len(other['trials']) == 2 and other['trials'][1]['final'] == [('m', 4.5)] \
         and other['trials'][2]['state'] == ACTIVE and other['md'] == []      # the other owner's study is never touched
     ok = ok and svc.lifecycle_ok(before, svc.abstract(sql))
+    # a later, unrelated call that makes the SQL layer roll back (CreateStudy for an owner that already exists hits the
+    # owners primary key) must not undo or alter what the call under test did: nothing may be left uncommitted
+    if ok and method != 'CreateStudy':
+      snap1, snap2 = svc.abstract(ram), svc.abstract(sql)
+      for sv in (ram, sql):
+        svc.call(sv.CreateStudy, vs.CreateStudyRequest(parent='owners/q', study=study_pb2.Study(
+            display_name='later', study_spec=svc.spec())))
+      ok = svc.abstract(ram) == snap1 and svc.abstract(sql) == snap2
     tag = '%s:%s' % (method, c1)
   reach(tag)
   return finish(ok, args, obs=[tag, c2])
@@ -327,9 +335,39 @@ def _update_metadata(study_state, t1, t2, us, tgts, as_proto, args):
         # everything but metadata untouched
         strip = lambda s_: {'state': s_['state'], 'trials': {i: dict(t, md=None) for i, t in s_['trials'].items()}}  # noqa: E731
         ok = ok and strip(a1) == strip(before)
+    if ok:      # nothing may be left uncommitted: a later call that makes the SQL layer roll back changes nothing
+      for sv in (ram, sql):
+        svc.call(sv.CreateStudy, vs.CreateStudyRequest(parent='owners/q', study=study_pb2.Study(
+            display_name='later', study_spec=svc.spec())))
+      ok = svc.abstract(ram) == a1 and svc.abstract(sql) == a2
     tag = 'update_metadata:%s' % c1
   reach(tag)
   return finish(ok, args, obs=[tag, c2])
+
+
+def many_trials(n: int, which: int) -> bool:
+  """
+  pre: 8 <= n <= 13 and 0 <= which <= 1
+  post: _
+  """
+  n, which = conc(n, 8, 13), conc(which, 0, 1)
+  with NoTracing():
+    ram = svc.new_servicer()
+    sql = svc.new_servicer(database_url='sqlite:///:memory:')
+    outs = []
+    for sv in (ram, sql):
+      svc.add_study(sv, state=1)
+      for i in range(1, n + 1):
+        sv.datastore.create_trial(svc.make_trial(i, REQUESTED if i % 2 else ACTIVE, client='' if i % 2 else 'v', x=i / 64.0))
+      if which == 0:
+        r, e = svc.call(sv.ListTrials, vs.ListTrialsRequest(parent=S))
+        outs.append((svc.classify(e), [int(t.id) for t in r.trials]))           # listing order is observable
+      else:
+        r, e = svc.call(sv.SuggestTrials, vs.SuggestTrialsRequest(parent=S, suggestion_count=2, client_id='w'))
+        outs.append((svc.classify(e), _obs(r), svc.abstract(sv)))
+    ok = outs[0] == outs[1]
+  reach('many_trials')
+  return finish(ok, (n, which), obs=None if ok else [str(outs[0])[:300], str(outs[1])[:300]])
 
 
 def delete_and_recreate(t1: int, n_ops: int, who: bool) -> bool:
